@@ -17,8 +17,7 @@ let kv tok key =
   else failwith ("expected " ^ key ^ "= got " ^ tok)
 
 let flags_of_variant v =
-  if v = "repaired" then repaired else if v = "head" then head
-  else if v = "head_nots" then head_nots else if v = "head_nottl" then head_nottl else failwith "variant"
+  if v = "repaired" then repaired else if v = "head" then head else failwith "variant"
 
 let rec take k l = if k = 0 then ([], l) else match l with x :: r -> let (a, b) = take (k-1) r in (x :: a, b) | [] -> failwith "short"
 let rec drop k l = if k = 0 then l else match l with _ :: r -> drop (k-1) r | [] -> []
